@@ -4,6 +4,8 @@ import asyncio
 from dataclasses import dataclass, field
 from typing import TYPE_CHECKING
 
+from repid.message import MessageCategory
+
 if TYPE_CHECKING:
     from datetime import datetime
 
@@ -30,3 +32,15 @@ def wait_until(params: ParametersT | None = None) -> datetime | None:
     if params is None or params.delay is None:
         return None
     return params.delay.next_execution_time or params.compute_next_execution_time
+
+
+def hand_back(queue: DummyQueue, msg: Message, category: MessageCategory) -> None:
+    """Return a held message to where it was taken from."""
+    slot = wait_until(msg.parameters) if category == MessageCategory.DELAYED else None
+    if category == MessageCategory.DEAD:
+        queue.dead.insert(0, msg)
+    elif slot is not None:
+        queue.delayed.setdefault(slot, []).insert(0, msg)
+    else:
+        queue.simple.put_nowait(msg)
+
